@@ -9,6 +9,22 @@ package c10
 // Part C (rpc_test.go): starknet_getStorageProof (v9, v10; both state backends) on enumerated small chains, checked
 //   by the independent verifier against the block's global state root.
 
+// Violation keys seen on the unchanged tree (all reproduced with juno's API alone in repro_test.go, C10_REPRO=1):
+//   rpc-v9|v10 storage-proofs-not-in-request-order      processStorageKeys ranges over a Go map: contracts_storage_proofs[i]
+//                                                       is not the i-th requested contract's proof (production code)
+//   VerifyProof-rejects-or-misreads-honest-proof * empty-trie
+//                                                       root 0 + empty node set: "proof node not found" instead of absence
+//   FORGED-/altered-proof-accepted trie2 corruption=trie2.go-level/*
+//                                                       trie2.VerifyProof returns a child typed ValueNode without having consumed
+//                                                       the key (also: honest set verifies under an inner node's hash as root),
+//                                                       and trusts a proof node's cached Flags.Hash instead of hashing it
+//   VerifyRangeProof-rejects-honest-range *, FALSE-range-claim-accepted *, range-proof-more-entries-flag-wrong legacy-trie
+//                                                       legacy hasRightElement ignores edge divergence and never runs when the
+//                                                       root is a binary node; missing proof nodes are read as absence; a leaf
+//                                                       directly under a binary boundary node is never unset (authors' TODO);
+//                                                       trie2 proofToPath links ONE node object for equal-hash siblings -> panic
+// VerifyProof / VerifyRangeProof have no production caller; Prove (used by the RPC) showed no defect.
+
 import (
 	"os"
 	"testing"
